@@ -193,6 +193,18 @@ def o_calls(case):
         v = float(m.calcTheoreticalSER(sc))
         if not rel_close(v, float(ref['SER'][0]), 1e-5):
             return 'calls:scalar:%s:%s' % (kind, type(sc).__name__), repr(v)
+    # R11 / R13: the error-rate queries made so far left the modulator as it was, and a copy / pickle of it
+    # reports the same curves
+    import copy
+    import pickle
+    fresh = make(kind, M)
+    if not np.array_equal(np.asarray(m.symbols), np.asarray(fresh.symbols)) or m.M != fresh.M or m.K != fresh.K:
+        return 'calls:query-mutates:%s' % kind, 'symbols / M / K changed by calcTheoretical* calls'
+    for nm, c in (('deepcopy', copy.deepcopy(m)), ('pickle', pickle.loads(pickle.dumps(m)))):
+        for n in ('SER', 'BER'):
+            v = np.asarray(getattr(c, 'calcTheoretical' + n)(base.copy()), dtype=float)
+            if not np.allclose(v, ref[n], rtol=1e-12, atol=0):
+                return 'calls:%s:%s:%s' % (nm, n, kind), 'curve of the copy differs'
     # argument forms: the documented parameters given positionally or by keyword, scalar or array SNR,
     # packet_length absent / None / given -- each must give the value of the definition
     bits = math.log2(M)
